@@ -82,6 +82,9 @@ fn classes(s: &Stats, t: &Trace) -> Vec<&'static str> {
     if s.failure_codes > 0 {
         c.push("failure-reason-code");
     }
+    if s.failing_payloads > 0 {
+        c.push("publish-with-failing-payload-serialiser");
+    }
     if s.deliveries > 0 {
         c.push("inbound-delivery");
     }
@@ -255,8 +258,9 @@ pub const C03: ScenDef = ScenDef {
         conns: (1, 5),
         steps: (2, 16),
         w_pub: [0, 1, 14],
-        w_sub: 0,
-        w_unsub: 0,
+        // SUBSCRIBE / UNSUBSCRIBE share the identifier space and the retained table with the publishes
+        w_sub: 2,
+        w_unsub: 1,
         w_ack: 14,
         w_ackall: 2,
         keep_session_pct: 92,
@@ -272,11 +276,49 @@ pub const C03: ScenDef = ScenDef {
         ..Profile::default()
     },
     nontrivial: |s, _| (s.qos2_overlap_ooo > 0 && s.acks_out_of_order > 0) || s.rel_replays > 0 || (s.qos2_flights > 0 && s.replays > 0),
-    rule: "1-8 concurrent QoS 2 publishes, scripted broker PUBREC/PUBCOMP in generated orders and forms, failing PUBREC codes, crashes between the four steps, resumed reconnects, stale PUBRECs; oracle = per (session epoch, id) four-state machine over wire + consumed acks (PUBREL only after successful PUBREC, no PUBLISH afterwards, PUBREL replay once per resumed connection, failing PUBREC ends the exchange, PUBREL order = PUBREC order). Non-trivial = overlapping exchanges with out-of-order acks, or an exchange crossing a reconnect; distinct = distinct case value.",
+    rule: "1-8 concurrent QoS 2 publishes (with some QoS 1 publishes, SUBSCRIBE and UNSUBSCRIBE requests outstanding among them), scripted broker PUBREC/PUBCOMP in generated orders and forms, failing PUBREC codes, crashes between the four steps, resumed reconnects, stale PUBRECs; oracle = per (session epoch, id) four-state machine over wire + consumed acks (PUBREL only after successful PUBREC, no PUBLISH afterwards, PUBREL replay once per resumed connection, failing PUBREC ends the exchange, PUBREL order = PUBREC order). Non-trivial = overlapping exchanges with out-of-order acks, or an exchange crossing a reconnect; distinct = distinct case value.",
     cases: (240_000, 6_000_000),
     level: "exploration",
     extra: None,
 };
+
+/// C04 purpose-built: the inbound QoS 2 window is (nearly) filled - 5..8 messages delivered and not
+/// released - then the connection is resumed once or twice (with or without the broker having seen
+/// the PUBRECs), and retransmissions (DUP PUBLISH resp. PUBREL), releases in any order and new
+/// messages (which re-use released identifiers) are mixed.
+fn inbound_window() -> proptest::strategy::BoxedStrategy<Case> {
+    use proptest::prelude::*;
+    let act = || {
+        prop_oneof![
+            4 => any::<u8>().prop_map(|k| Step::Broker(BrokerAct::Deliver { qos: 2, retain: false, topic: TopicSpec::new(1, 0), payload: PayloadSpec::new(0, 0), props: vec![], redeliver: Some(k) })),
+            4 => any::<u16>().prop_map(|w| Step::Broker(BrokerAct::PubRel { which: w, unknown: None })),
+            3 => (0u8..3, any::<u8>()).prop_map(|(qos, s)| Step::Broker(BrokerAct::Deliver { qos, retain: s & 1 == 1, topic: TopicSpec::new(2, s), payload: PayloadSpec::new(3, s), props: vec![], redeliver: None })),
+            3 => (1u16..6).prop_map(|m| Step::PollIdle { max: m }),
+            1 => (1u8..3, any::<u8>()).prop_map(|(q, s)| Step::Publish(PubSpec::simple(q, 2, 2, s))),
+        ]
+    };
+    (5usize..9, prop::collection::vec(act(), 0..8), prop::collection::vec((any::<bool>(), any::<bool>(), prop::collection::vec(act(), 1..10)), 1..3), any::<bool>())
+        .prop_map(|(n, tail, later, poll_each)| {
+            let mut steps: Vec<Step> = Vec::new();
+            for i in 0..n {
+                steps.push(Step::Broker(BrokerAct::Deliver { qos: 2, retain: false, topic: TopicSpec::new(2, i as u8), payload: PayloadSpec::new(2, i as u8), props: vec![], redeliver: None }));
+                if poll_each {
+                    steps.push(Step::PollIdle { max: 3 });
+                }
+            }
+            steps.push(Step::PollIdle { max: 24 });
+            steps.extend(tail);
+            steps.push(Step::PollIdle { max: 8 });
+            let mut conns = vec![ConnScript { connect: ConnectSpec::default(), steps, end: EndHow::Drop }];
+            for (lost, keep, mut acts) in later {
+                acts.insert(0, Step::PollIdle { max: 4 });
+                acts.push(Step::PollIdle { max: 12 });
+                conns.push(ConnScript { connect: ConnectSpec { lost_pubrecs: lost, keep_session: keep || lost, ..ConnectSpec::default() }, steps: acts, end: EndHow::Drop });
+            }
+            Case { cfg: Cfg { rx: 128, tx: 512, ..Cfg::default() }, broker: BrokerMode::Scripted, conns }
+        })
+        .boxed()
+}
 
 pub const C04: ScenDef = ScenDef {
     id: "C04",
@@ -301,10 +343,10 @@ pub const C04: ScenDef = ScenDef {
         ..Profile::default()
     },
     nontrivial: |s, _| s.inbound_qos2_dups > 0 || s.reconnect_between_pub_and_rel > 0 || s.max_inbound_inflight >= 3,
-    rule: "broker PUBLISH with all QoS, ids, retain, generated property sets (incl. several subscription ids / user properties), DUP retransmissions of pending QoS 2 ids, PUBREL for pending and unknown ids, at most the advertised Receive Maximum unacknowledged, interleaved with outbound traffic on small transmit arenas, resumed/fresh reconnects between PUBLISH and PUBREL; oracle = reference receiver model (deliveries field-wise equal and exactly once, acks owed in arrival order with the right reason class, pending set cleared by a fresh session). Non-trivial = a QoS 2 duplicate, a reconnect between PUBLISH and PUBREL, or >= 3 inbound ids in flight; distinct = distinct case value.",
+    rule: "broker PUBLISH with all QoS, ids, retain, generated property sets (incl. several subscription ids / user properties), DUP retransmissions of pending QoS 2 ids, PUBREL for pending and unknown ids, at most the advertised Receive Maximum unacknowledged, interleaved with outbound traffic on small transmit arenas, resumed/fresh reconnects between PUBLISH and PUBREL; oracle = reference receiver model (deliveries field-wise equal and exactly once, acks owed in arrival order with the right reason class, pending set cleared by a fresh session). Second generator (a tenth of the cases): 5-8 QoS 2 messages delivered and unreleased (the advertised Receive Maximum is 8), one or two resumed connections on which the broker may not have seen the previous PUBRECs (DUP PUBLISH of identifiers the client holds) mixed with releases in any order and new messages re-using released identifiers. Non-trivial = a QoS 2 duplicate, a reconnect between PUBLISH and PUBREL, or >= 3 inbound ids in flight; distinct = distinct case value.",
     cases: (240_000, 6_000_000),
     level: "exploration",
-    extra: None,
+    extra: Some(inbound_window),
 };
 
 pub const C05: ScenDef = ScenDef {
